@@ -37,7 +37,7 @@ package receiver
 //@ default (*receiver.Transfer).
 //@   allows[C05,C04] fswrite(h) if h == rt.DestRoot
 //@   allows[C05,C04] fsread(h) if h == rt.DestRoot
-//@   allows[C05] pathwrite(p) if isProcFd(p) && procFdRoot(p) == rt.DestRoot
+//@   allows[C05,C04] pathwrite(p) if isProcFd(p) && procFdRoot(p) == rt.DestRoot
 //@   allows[C10] fswrite(h) if !rt.Opts.DryRun
 //@   allows[C10] pathwrite(p) if !rt.Opts.DryRun
 //@   allows[C10] fsread(h)
